@@ -648,6 +648,31 @@ def merge_nested_ifs(sources: Dict[str, str]) -> Dict[str, str]:
     return out
 
 
+def empty_literals_as_calls(sources: Dict[str, str]) -> Dict[str, str]:
+    """`[]` -> `list()`, `{}` -> `dict()` wherever an empty display is used as a value."""
+    class R(ast.NodeTransformer):
+        def visit_List(self, node):
+            self.generic_visit(node)
+            if not node.elts and isinstance(node.ctx, ast.Load):
+                return ast.copy_location(ast.Call(func=ast.Name(id="list", ctx=ast.Load()), args=[], keywords=[]), node)
+            return node
+
+        def visit_Dict(self, node):
+            self.generic_visit(node)
+            if not node.keys:
+                return ast.copy_location(ast.Call(func=ast.Name(id="dict", ctx=ast.Load()), args=[], keywords=[]), node)
+            return node
+
+        def visit_arguments(self, node):
+            return node  # default values stay literals
+    out = {}
+    for p, s in sources.items():
+        tree = R().visit(ast.parse(s))
+        ast.fix_missing_locations(tree)
+        out[p] = ast.unparse(tree)
+    return out
+
+
 def rename_all_locals(sources: Dict[str, str]) -> Dict[str, str]:
     out = {}
     for p, s in sources.items():
@@ -725,6 +750,8 @@ def _worker(args):
             overlay = swap_equality_operands(sources)
         elif m.old == "<merge-nested-ifs>":
             overlay = merge_nested_ifs(sources)
+        elif m.old == "<empty-literals-as-calls>":
+            overlay = empty_literals_as_calls(sources)
         elif m.old == "<keywords-at-call-sites>":
             overlay = keywords_at_call_sites(sources)
         elif m.old == "<swap-if-else>":
@@ -776,6 +803,7 @@ GENERIC = [
     M("De Morgan: every boolean if / while / conditional test rewritten as the negation of the dual", "", None, "<de-morgan-tests>", "", kind="equiv"),
     M("operands of every == / != comparison swapped", "", None, "<swap-equality-operands>", "", kind="equiv"),
     M("nested ifs merged into `and` and two-operand `and` guards split into nested ifs", "", None, "<merge-nested-ifs>", "", kind="equiv"),
+    M("empty displays written as constructor calls ([] -> list(), {} -> dict())", "", None, "<empty-literals-as-calls>", "", kind="equiv"),
     M("methods of every class in reverse source order", "", None, "<reverse-methods>", "", kind="equiv"),
     M("swap the branches of every plain if/else under the negated test", "", None, "<swap-if-else>", "", kind="equiv"),
     M("annotate every local that is assigned once (x = v  ->  x: object = v)", "", None, "<annotate-single-assignments>", "", kind="equiv"),
